@@ -53,6 +53,9 @@ pub enum OpKind {
     Flush,
 }
 
+/// a run that performs more transport operations than this is cut off and reported as wedged
+pub const OP_BUDGET: u64 = 40_000_000;
+
 pub struct World {
     // ---- static
     pub reads: ReadSched,
@@ -88,6 +91,8 @@ pub struct World {
     pub wire_s: Vec<u8>,
     pub wire_flushed: usize,
     pub wire_delivered: u64,
+    pub wire_written: u64,
+    pub flush_count: u64,
     // ---- counters and logs
     pub op: u64,
     pub read_idx: u64,
@@ -106,6 +111,7 @@ pub struct World {
     pub short_writes: u32,
     pub log_events: bool,
     pub last_cb_op: u64,
+    pub op_budget_exceeded: bool,
 }
 
 pub type Shared = Rc<RefCell<World>>;
@@ -217,6 +223,8 @@ impl World {
             wire_s: Vec::new(),
             wire_flushed: 0,
             wire_delivered: 0,
+            wire_written: 0,
+            flush_count: 0,
             op: 0,
             read_idx: 0,
             write_idx: 0,
@@ -234,6 +242,7 @@ impl World {
             short_writes: 0,
             log_events: true,
             last_cb_op: 0,
+            op_budget_exceeded: false,
         };
         if w.hostile {
             // hostile streams are delivered without gating
@@ -488,6 +497,10 @@ impl Read for SimStream {
         w.op += 1;
         let ridx = w.read_idx;
         w.read_idx += 1;
+        if op > OP_BUDGET {
+            w.op_budget_exceeded = true;
+            return Err(io::Error::new(io::ErrorKind::Other, "simulator: operation budget exceeded"));
+        }
         if let Some(f) = w.fault_at(op, OpKind::Read) {
             match f {
                 FaultKind::Eof => {
@@ -598,9 +611,11 @@ impl Write for SimStream {
         if n < buf.len() {
             w.short_writes += 1;
         }
-        w.wire_s.extend_from_slice(&buf[..n]);
+        w.wire_written += n as u64;
         if w.tls.is_none() {
             w.sbytes.extend_from_slice(&buf[..n]);
+        } else {
+            w.wire_s.extend_from_slice(&buf[..n]);
         }
         w.ev(Ev::Write {
             op,
@@ -623,6 +638,7 @@ impl Write for SimStream {
             return Err(io_err(k));
         }
         w.wire_flushed = w.wire_s.len();
+        w.flush_count += 1;
         if w.tls.is_none() {
             w.flushed = w.sbytes.len();
         }
